@@ -187,6 +187,10 @@ class Rules(LogicType.Rules):
             for n in self[PredNodes][branch]:
                 if n is node:
                     continue
+                if n.get('world') != w:
+                    # Identity holds at a world: do not substitute into
+                    # sentences at other worlds.
+                    continue
                 s = self.sentence(n)
                 if pa in s.params:
                     p_old, p_new = pa, pb
